@@ -216,12 +216,18 @@ func c07corpus(c *Ctx) []c07text {
 		// member order is by code point, not by UTF-16 code unit: supplementary-plane keys sort after U+E000..U+FFFF
 		"{\"\U0001F600\":2,\"\uFF21\":1,\"a\U00010000b\":3,\"a\uE000b\":4,\"\u007f\":5,\"\u0080\":6,\"Z\":7,\"\":8}",
 		"[{\"b\":[1,2],\"a\":[[1,2],{\"a\":1}]},[[1,2]],[{\"a\":1}],[]]",
+		// sorting must reach objects at any depth, also below arrays of arrays
+		`[[{"b":1,"a":2,"c":[[{"z":1,"y":2,"x":[[[{"q":1,"p":2}]]]}]]}],[[[{"n":null,"m":1,"l":2}]]]]`,
+		// keys that differ only by trailing NUL characters, empty key, keys longer than 8 bytes with a common prefix
+		"{\"ab\\u0000\":2,\"ab\":1,\"\":0,\"\\u0000\":3,\"abcdefg\\u0000\":4,\"abcdefg\":5,\"abcdefgh\\u0000\":6,\"abcdefgh\":7,\"abcdefghi\":8,\"abcdefgh\\u0001\":9}",
 		// every control character, DEL, a surrogate pair and the characters other encoders escape
 		"{\"ctl\":\"\\u0001\\u0002\\u0007\\b\\t\\n\\u000b\\f\\r\\u000e\\u001f\\u007f\",\"sp\":\"\\ud83d\\ude00\",\"html\":\"<>&'\\u2028\\u2029/\"}",
 		`{"n":[0,-0,1,-1,10,100,1e0,1E1,1e+2,1.0,1.10,0.1e1,-0.001,12345.678e-3,1e21,1E-7,9223372036854775807,-9223372036854775808,9223372036854775808,0.000001,123.456e3]}`,
 	} {
 		out = append(out, c07text{fmt.Sprintf("lit:%d", i), []byte(s)})
 	}
+	// numbers no 64-bit type can hold: rejecting them is fine, turning them into something else is not
+	out = append(out, c07text{"overflow:0", []byte(`{"a":1e400,"b":[1E+999,-1e400],"c":1}`)})
 	c07texts = out
 	return out
 }
@@ -286,6 +292,9 @@ func planC07(c *Ctx, run int64) *Plan {
 		}
 		mk(Op{K: "err", I: int64(n), B: true}) // all data delivered, then failure instead of EOF
 		mk(Op{K: "err", I: 0})
+		for i := 0; i < 6; i++ {
+			mk(Op{K: "badutf8", I: int64(r.IntN(n)), J: int64(r.IntN(4))})
+		}
 	case "trailing":
 		for _, s := range []string{" ", "\n\n\t ", "x", " xyz", "{}", " 1", "]", "}", ",", "null", "\x00"} {
 			mk(Op{K: "trailing", S: s})
@@ -326,6 +335,11 @@ func execC07(x *X) {
 		return
 	}
 	whole, werr, wp := canonVia(NewSimReader(nil, "whole", t.data))
+	if strings.HasPrefix(t.name, "overflow:") && wp == "" && werr != nil {
+		x.Probe("overflowing-number-rejected")
+		x.Case(t.name + "|rejected")
+		return
+	}
 	if wp != "" || werr != nil {
 		x.Violate("whole:error", "canonicalising a complete valid text %s failed: %v %s", t.name, werr, wp)
 		return
@@ -409,6 +423,33 @@ func execC07(x *X) {
 				x.Violate("err:panic", "reader failing after %d bytes made the canonicaliser panic: %s", op.I, p)
 			} else if err == nil {
 				x.Violate("err:swallowed", "the reader of %s failed after %d of %d bytes with an I/O error, yet a canonical form was returned (%d bytes)", t.name, op.I, len(t.data), len(out))
+			}
+		case "badutf8":
+			// one byte inside a string (value or member name) damaged so that the text is no longer valid UTF-8
+			pos := -1
+			for k := 0; k < len(t.data); k++ {
+				j := (int(op.I) + k) % len(t.data)
+				if c07class(t.data, j+1) == "inside-string" && t.data[j] != '"' && t.data[j] != '\\' && (j == 0 || t.data[j-1] != '\\') && t.data[j] < 0x80 {
+					pos = j
+					break
+				}
+			}
+			if pos < 0 {
+				break
+			}
+			data := append([]byte{}, t.data...)
+			data[pos] = []byte{0xff, 0xc0, 0x80, 0xed}[op.J%4]
+			out, err, p := canonVia(NewSimReader(x, "badutf8", data))
+			x.Case(fmt.Sprintf("%s|badutf8|%d|%d", t.name, pos, op.J))
+			x.Fault("invalid-utf8-byte")
+			if p != "" {
+				x.Violate("badutf8:panic", "a text with an invalid UTF-8 byte at offset %d made the canonicaliser panic: %s", pos, p)
+			} else if err == nil && bytes.Equal(out, whole) {
+				// the damaged bytes sat in a member that is dropped anyway (null value): nothing of
+				// the damage reaches the canonical form
+				x.Probe("invalid-utf8-in-dropped-member")
+			} else if err == nil {
+				x.Violate("badutf8:accepted", "%s with byte %d replaced by 0x%02x is not valid UTF-8, yet it was canonicalised (%d bytes): the damaged character was silently replaced", t.name, pos, data[pos], len(out))
 			}
 		case "trailing":
 			data := append(append([]byte{}, t.data...), op.S...)
